@@ -59,6 +59,18 @@ def run(ctx):
         b = hmf_integral_gtm(M[~np.isnan(d2)], d2[~np.isnan(d2)])
         if not np.array_equal(a, b):
             viol("standalone/nan-filter", "NaN entries are not simply dropped")
+        # NaN in the top rows of a table (a mass function that was not evaluated up there) is the same as a table that stops earlier
+        for md_ in (False, True):
+            for ntop in (1, 3, 10):
+                for slope in (-1.9, -2.5):
+                    Mt = 10 ** np.arange(10, 16, 0.1); dt = Mt ** slope
+                    dn_ = dt.copy(); dn_[-ntop:] = np.nan
+                    a_ = hmf_integral_gtm(Mt, dn_, md_)
+                    b_ = hmf_integral_gtm(Mt[:-ntop], dt[:-ntop], md_)
+                    if not (a_.shape == b_.shape and np.allclose(a_, b_, rtol=1e-12, atol=0)):
+                        dev_ = float(np.max(np.abs(a_ / b_ - 1))) if a_.shape == b_.shape else float("nan")
+                        viol("standalone/nan-top-rows", f"hmf_integral_gtm(mass_density={md_}) with the top {ntop} rows NaN differs from the same table stopped {ntop} rows earlier by up to {dev_:.3g} (dn/dm ~ m^{slope})",
+                             {"mass_density": md_, "nan_rows": ntop, "slope": slope})
         try:
             hmf_integral_gtm(M[:3], d[:3]); viol("standalone/too-few", "fewer than 4 points accepted")
         except NaNException:
